@@ -8,7 +8,7 @@
    another holder has it = violation) and, at quiescence, the pool drained by the main thread must contain exactly
    the objects that were deallocated into it and not handed out again."""
 import os, json
-import vcheck, conc_check
+import vcheck, conc_check, conc_windows
 import C07 as q07
 
 WHAT_OWN = "a pool handed out an object that is currently allocated to another holder (ownership map over the implementation log)"
@@ -84,6 +84,50 @@ def gen_case(rng, i):
     nops = sum(len(t) for t in threads)
     sched = q07.rand_sched(rng, nt, rng.below(3), 8 * nops + rng.below(40))
     return {"id": "g%d" % i, "cfg": [cap, kind, adapter, 400], "threads": threads, "sched": sched, "shape": shape}
+
+
+# model-guided window schedules (lib/conc_windows.py): as in C07 the victim is stalled right before its position CAS
+# or its sequence publish (a plain store) inside the pool's queue, the actor runs through one of its own CAS / publish
+# steps or to its end, optionally a third thread in between, then r victim steps.
+# (capacity, set-up operations of thread 0, threads): A = allocate, D = deallocate the first held object
+WINDOW_TEMPLATES = [
+    (2, "",   [["A"], ["A"], ["A"]], True),               # three allocations for two pooled objects: the loser falls back (heap / bad_alloc / retry)
+    (2, "AA", [["D"], ["A"], ["A"]], True),               # empty pool: allocations race with the release that refills it
+    (2, "AA", [["D", "D"], ["A"], ["A", "A"]], False),
+    (2, "",   [["A", "D"], ["A", "D"], ["A", "D"]], False),
+    (2, "A",  [["D", "A"], ["A", "D"]], False),
+    (4, "AAA", [["A"], ["A"], ["D", "A"]], False),
+    (2, "AA", [["D"], ["D"], ["A"]], True),               # two releases race for the queue position, one allocation
+    (2, "A",  [["A", "D", "D"], ["A"], ["A", "D"]], False),
+]
+WINDOW_KINDS = ("cas", "st")
+
+
+def gen_window_cases(ctx, model, rng, quick):
+    wdir = os.path.join(ctx.work, "wprobe")
+    os.makedirs(wdir, exist_ok=True)
+    cases = []
+    info = {"templates": len(WINDOW_TEMPLATES), "enumerated": 0, "model_probes": 0}
+    conv = lambda txt: [([1] if ch == "A" else [2, 0]) for ch in txt]
+    for ti, (cap, setup, tpl, third) in enumerate(WINDOW_TEMPLATES):
+        combos = [(kind, adapter) for kind in (0, 1, 2) for adapter in (0, 1)]
+        if quick:
+            combos = [combos[(ctx.seed + ti) % 6], combos[(ctx.seed + ti + 3) % 6]]
+        for (kind, adapter) in combos:
+            cfg = [cap, kind, adapter, 400]
+            tag = "w%d_%d%d" % (ti, kind, adapter)
+            threads, sw, inf = conc_windows.windows(model, wdir, cfg, [conv(th) for th in tpl], setup=conv(setup), kinds=WINDOW_KINDS, max_r=8,
+                                                    third=third and not quick, tag=tag, max_stalls=8)
+            info["enumerated"] += len(sw)
+            info["model_probes"] += inf["model_probes"]
+            for name, sched in conc_windows.subsample(rng, sw, 36 if quick else None):
+                cases.append({"id": "%s_%s" % (tag, name), "cfg": cfg, "threads": threads, "sched": sched, "shape": "window", "window": True})
+    if not quick and len(cases) > 6000:
+        # thorough tier: the full enumeration, up to a budget (a seeded subsample beyond it; 'enumerated' says how many there are)
+        cases = conc_windows.subsample(rng, cases, 6000)
+        info["thorough_budget"] = 6000
+    info["cases"] = len(cases)
+    return cases, info
 
 
 def run_batch(ctx, model, impl, cases, tag):
@@ -188,6 +232,21 @@ def run(ctx):
     mlog2, ilog2 = run_batch(ctx, model, impl, stalls, "stalls")
     mlog.update(mlog2); ilog.update(ilog2)
     cases += stalls
+    # third pass: model-guided window schedules
+    t_w = os.times()
+    wcases, winfo = gen_window_cases(ctx, model, ctx.rng.fork(), not ctx.thorough())
+    mlog3, ilog3 = run_batch(ctx, model, impl, wcases, "windows")
+    mlog.update(mlog3); ilog.update(ilog3)
+    cases += wcases
+    t_w2 = os.times()
+    winfo["cpu_s"] = round((t_w2.user + t_w2.system + t_w2.children_user + t_w2.children_system) - (t_w.user + t_w.system + t_w.children_user + t_w.children_system), 1)
+    wstats = conc_windows.RetryStats(outcome=lambda name, a: ("0" if (name == "alloc" and a and a[0] == "0") else ""))
+    for c in wcases:
+        if ilog.get(c["id"]) is not None:
+            wstats.add(ilog[c["id"]]["lines"], tuple(c["cfg"][:3]))
+    winfo.update(wstats.summary())
+    ctx.log("window schedules: %d cases (%d enumerated), %d with a failed CAS, %d with an operation on a retry path, cpu %.1fs" % (
+        len(wcases), winfo["enumerated"], winfo["cases_with_failed_cas"], winfo["cases_with_retry_path"], winfo["cpu_s"]))
 
     shapes = set(); nontrivial = set(); diverged = 0; steps = 0; first_div = None; nbad = 0; not_run = 0
     hist = {"alloc_from_pool": 0, "alloc_from_heap": 0, "bad_alloc": 0, "dealloc": 0, "heap_free": 0, "cas_failed": 0,
@@ -223,9 +282,12 @@ def run(ctx):
             elif len(t) >= 3 and t[1] == "ev" and t[2] == "inv_dealloc": hist["dealloc"] += 1
             elif len(t) >= 3 and t[1] == "ev" and t[2] == "free": hist["heap_free"] += 1
             elif len(t) == 4 and t[1] == "cas" and t[3] == "0": hist["cas_failed"] += 1; nt = True
-        if c.get("stall"): nt = True
+        if c.get("stall") or c.get("window"): nt = True
         if nt: nontrivial.add(key)
         bad = impl_bad(c, i, m)
+        if c.get("window"):
+            winfo["rejected_by_oracle"] = winfo.get("rejected_by_oracle", 0) + (1 if bad is not None else 0)
+            winfo["diverged_from_model"] = winfo.get("diverged_from_model", 0) + (1 if d is not None else 0)
         if bad is not None:
             nbad += 1
             if bad[0] not in getattr(ctx, "what_count", {}):
@@ -234,6 +296,8 @@ def run(ctx):
             diverged += 1
             if first_div is None:
                 first_div = (c, d)
+    if winfo.get("rejected_by_oracle") or winfo.get("diverged_from_model"):
+        ctx.log("window schedules: %d rejected by the implementation-side oracle, %d diverged from the model" % (winfo.get("rejected_by_oracle", 0), winfo.get("diverged_from_model", 0)))
     if first_div is not None and nbad == 0:
         c, d = first_div
         found = False
@@ -268,11 +332,12 @@ def run(ctx):
         ctx.violation("Coq obligations of C24 do not check: %s" % (res.failed[:2],), {"theorem": [f[2] for f in res.failed], "errors": res.failed[:3]}, no_input=True)
     ctx.coverage.update({
         "evaluations": len(cases) - not_run, "distinct_nontrivial": len(nontrivial),
-        "rule": "program x schedule pairs: pool capacity 2/4; vyukov_queue_pool, lazy_vyukov_queue_pool, bounded_vyukov_queue_pool, each directly and through pool_allocator; 2-4 threads allocating up to and past capacity and releasing held objects; schedules uniform / bursty / run-then-switch plus a second pass stalling a thread between a position CAS and its publish; one splitmix64 stream. distinct = distinct (cfg, model event log); non-trivial = heap fallback, bad_alloc, re-allocation of a released object (lazy), failed CAS or stalled thread",
+        "rule": "program x schedule pairs: pool capacity 2/4; vyukov_queue_pool, lazy_vyukov_queue_pool, bounded_vyukov_queue_pool, each directly and through pool_allocator; 2-4 threads allocating up to and past capacity and releasing held objects; schedules uniform / bursty / run-then-switch plus a second pass stalling a thread between a position CAS and its publish, plus a third pass of model-guided window schedules (templates with a set-up prefix that empties the pool; victim stalled right before its position CAS or its publish, actor exactly through one of its writes; see window_schedules); one splitmix64 stream. distinct = distinct (cfg, model event log); non-trivial = heap fallback, bad_alloc, re-allocation of a released object (lazy), failed CAS or stalled thread",
         "distinct_event_logs": len(shapes), "impl_steps_compared": steps, "diverged": diverged, "corpus_cases": ncorpus,
         "traces_validated_against_impl": len(cases) - not_run - diverged, "histograms": hist,
+        "window_schedules": winfo,
         "impl_runs_rejected_by_oracle": nbad, "cases_not_run_after_repeated_hangs": not_run,
-        "samples": [{k: c[k] for k in ("id", "cfg", "threads", "sched")} for c in (cases[ncorpus:ncorpus + 2] + stalls[:1])],
+        "samples": [{k: c[k] for k in ("id", "cfg", "threads", "sched")} for c in (cases[ncorpus:ncorpus + 2] + stalls[:1] + wcases[:1])],
         "modelled": "cds::memory::vyukov_queue_pool / lazy_vyukov_queue_pool / bounded_vyukov_queue_pool ::allocate, ::deallocate over the Vyukov queue model; pool_allocator forwards",
         "values_compared": "every atomic access: kind, object, ok flag, value read, value written (object pointers appear as client events only)",
     })
